@@ -9,6 +9,11 @@ R17.4  CompositeAuth threads the result through self.plugins in order
 R17.5  ApiKeyAuth location switch is total and writes self.name -> self.key into the right container
 R17.7  where plugin-added params / cookies are merged into the caller's value, that value is converted with dict() only under a type test
 R17.8  the credential a bundled plugin writes is built from its stored state, never from the raw result of an awaited callback
+R17.10 every header store after the first layer is case-insensitive (no `authorization` next to `Authorization`)
+R17.11 plugin-added query parameters are merged onto the query of the request URL (httpx replaces the URL's query by a non-empty `params`)
+R17.12 plugin-added cookies extend a Cookie header that is already among the prepared headers (httpx drops `cookies=` next to a Cookie header)
+R17.9  the case-insensitive header write `set_header(headers, name, value)` removes only other spellings of `name` and then stores the value (writes
+       through it are read as the plain header writes R17.2 / R17.5 / R17.6 look for)
 R17.6  bundled plugins extend (copy-then-update) the container they write and return request_args
 """
 from __future__ import annotations
@@ -67,8 +72,198 @@ def plugin_written_keys(repo: Repo) -> Dict[str, List[Tuple[str, Function, ast.A
     return out
 
 
+# ------------------------------------------------------------------------------------------------ the case-insensitive header write, read as a header write
+def _set_header_helper(repo: Repo):
+    """(function, problem): the helper `set_header(headers, name, value)` of core/auth/base.py if it is what its name says - it deletes only keys that
+    equal `name` ignoring case and then stores `headers[name] = value`, touching nothing else - else (fn, what is wrong); (None, None) when absent."""
+    try:
+        base = repo.module("core.auth.base")
+    except AnalysisError:
+        return None, None
+    fn = base.functions.get("set_header")
+    if fn is None:
+        return None, None
+    ps = fn.params
+    if len(ps) != 3:
+        return fn, "does not take (headers, name, value)"
+    h, n, v = ps
+    body = [st for st in fn.node.body if not (isinstance(st, ast.Expr) and isinstance(st.value, ast.Constant))]  # type: ignore[attr-defined]
+    if not body or not (isinstance(body[-1], ast.Assign) and norm(body[-1].targets[0]) == f"{h}[{n}]" and norm(body[-1].value) == v):
+        return fn, f"does not end in `{h}[{n}] = {v}`"
+    for st in body[:-1]:
+        if not isinstance(st, ast.For):
+            return fn, f"`{norm(st)[:50]}` is neither the removal loop nor the store"
+        it = st.iter
+        conds = [c for x in ast.walk(it) if isinstance(x, (ast.ListComp, ast.GeneratorExp, ast.SetComp)) for g in x.generators for c in g.ifs]
+        ci = any(isinstance(c, ast.Compare) and len(c.ops) == 1 and isinstance(c.ops[0], ast.Eq) and all(
+            isinstance(s_, ast.Call) and isinstance(s_.func, ast.Attribute) and s_.func.attr in ("lower", "casefold", "upper") for s_ in (c.left, c.comparators[0])) and n in norm(c) for c in conds)
+        dels = [x for x in ast.walk(st) if isinstance(x, ast.Delete)]
+        others = [x for b in st.body for x in ast.walk(b) if isinstance(x, (ast.Assign, ast.AugAssign, ast.Call)) and not isinstance(b, ast.Delete)]
+        if not ci or not dels or others or not all(norm(t).startswith(f"{h}[") for d in dels for t in d.targets):
+            return fn, "removes other keys than the ones equal to the name ignoring case"
+    return fn, None
+
+
+def _desugar_header_writes(repo: Repo, rep=None) -> None:
+    """HTTP field names are case-insensitive: a write through `set_header(D, name, value)` is the header write `D[name] = value` that also removes
+    other spellings of the name.  Once the helper is verified (R17.9) the rules read such calls as the plain writes they looked for before:
+    `set_header(D, n, v)` as `D[n] = v`, and `for a, b in S.items(): set_header(D, a, f(b))` as `D.update({a: f(b) for a, b in S.items()})`.
+    The syntax trees of the transport and plugin modules are rewritten in place, once per run (analysis only)."""
+    if getattr(repo, "_c17_desugared", False):
+        return
+    repo._c17_desugared = True  # type: ignore[attr-defined]
+    repo._c17_plain_stores = _plain_header_stores(repo)  # type: ignore[attr-defined]
+    fn, problem = _set_header_helper(repo)
+    if fn is None:
+        return
+    sub = f"{fn.module.relpath}:set_header is a header write"
+    if problem is not None:
+        if rep is not None:
+            rep.violation("R17.9", sub, f"{fn.fq}|set-header-helper", f"the header-write helper {problem}: writes through it are not the layered overrides the transport documents", fn.loc())
+        return
+    if rep is not None:
+        rep.ok("R17.9", sub, "removes the other spellings of the name (case-insensitive comparison), then stores `headers[name] = value`; nothing else is touched", fn.loc())
+    from sa.model import set_parents
+
+    def is_call(st: ast.stmt) -> Optional[ast.Call]:
+        if isinstance(st, ast.Expr) and isinstance(st.value, ast.Call) and (dotted(st.value.func) or "").split(".")[-1] == "set_header" and len(st.value.args) == 3 and not st.value.keywords:
+            return st.value
+        return None
+
+    def rewrite(stmts: List[ast.stmt]) -> None:
+        for i, st in enumerate(list(stmts)):
+            c = is_call(st)
+            if c is not None:
+                new = ast.Assign(targets=[ast.Subscript(value=c.args[0], slice=c.args[1], ctx=ast.Store())], value=c.args[2])
+                stmts[i] = ast.copy_location(new, st)
+                ast.fix_missing_locations(stmts[i])
+                continue
+            if isinstance(st, ast.For) and len(st.body) == 1 and not st.orelse and is_call(st.body[0]) is not None and isinstance(st.iter, ast.Call) \
+                    and isinstance(st.iter.func, ast.Attribute) and st.iter.func.attr == "items" and isinstance(st.target, ast.Tuple) and len(st.target.elts) == 2:
+                c = is_call(st.body[0])
+                assert c is not None
+                if isinstance(c.args[1], ast.Name) and isinstance(st.target.elts[0], ast.Name) and c.args[1].id == st.target.elts[0].id:
+                    comp = ast.DictComp(key=c.args[1], value=c.args[2], generators=[ast.comprehension(target=st.target, iter=st.iter, ifs=[], is_async=0)])
+                    # `D.update(S)` when the value is handed on unchanged
+                    arg: ast.AST = comp
+                    if isinstance(c.args[2], ast.Name) and isinstance(st.target.elts[1], ast.Name) and c.args[2].id == st.target.elts[1].id:
+                        arg = st.iter.func.value
+                    new2 = ast.Expr(value=ast.Call(func=ast.Attribute(value=c.args[0], attr="update", ctx=ast.Load()), args=[arg], keywords=[]))
+                    stmts[i] = ast.copy_location(new2, st)
+                    ast.fix_missing_locations(stmts[i])
+                    continue
+            for fld in ("body", "orelse", "finalbody"):
+                sub_ = getattr(st, fld, None)
+                if isinstance(sub_, list) and sub_ and isinstance(sub_[0], ast.stmt):
+                    rewrite(sub_)
+            for hd in getattr(st, "handlers", []):
+                rewrite(hd.body)
+
+    for mn in ("core.http_transport", "core.auth.plugins", "core.auth.base"):
+        try:
+            m = repo.module(mn)
+        except AnalysisError:
+            continue
+        for f in m.functions.values():
+            if f is fn:
+                continue
+            rewrite(f.node.body)  # type: ignore[attr-defined]
+        set_parents(m.tree)
+
+
+def _plain_header_stores(repo: Repo):
+    """Before the rewriting above: stores into a headers mapping that do not go through the case-insensitive helper.  A headers mapping is the dict
+    `_prepare_headers` returns / a dict a plugin puts under request_args["headers"].  The first layer into a mapping created empty in the same
+    function is exempt (nothing to collide with), and so is a store under a key that was looked up in the mapping itself."""
+    out = []
+    n_maps = 0
+    for mn in ("core.http_transport", "core.auth.plugins"):
+        try:
+            m = repo.module(mn)
+        except AnalysisError:
+            continue
+        for f in m.functions.values():
+            if "<locals>" in f.qualname or f.name == "set_header":
+                continue
+            L = Locals(f.node)
+            maps: Set[str] = set()
+            for st in own_nodes(f.node):
+                if isinstance(st, ast.Return) and isinstance(st.value, ast.Name) and f.name == "_prepare_headers":
+                    maps.add(st.value.id)
+                if isinstance(st, ast.Assign) and any(isinstance(t, ast.Subscript) and const_str(t.slice) == "headers" for t in st.targets) and isinstance(st.value, ast.Name):
+                    maps.add(st.value.id)
+            n_maps += len(maps)
+            for D in maps:
+                defs = [v for _, v, dn in sorted(L.defs.get(D, []), key=lambda d: getattr(d[2], "lineno", 0)) if v is not None]
+                fresh = bool(defs) and all((isinstance(v, ast.Dict) and not v.keys) or (isinstance(v, ast.Call) and isinstance(v.func, ast.Name) and v.func.id == "dict" and not v.args) for v in defs[:1])
+                stores = []
+                for st in own_nodes(f.node):
+                    if isinstance(st, ast.Assign) and any(isinstance(t, ast.Subscript) and isinstance(t.value, ast.Name) and t.value.id == D for t in st.targets):
+                        key = next(t.slice for t in st.targets if isinstance(t, ast.Subscript))
+                        # a key found in the mapping itself (`next(name for name in D if name.lower() == "cookie")`) replaces that very field
+                        kd = [v for _, v, _ in L.defs.get(key.id, [])] if isinstance(key, ast.Name) else []
+                        if kd and all(v is not None and any(isinstance(x, ast.Name) and x.id == D for x in ast.walk(v)) for v in kd):
+                            continue
+                        stores.append(st)
+                    if isinstance(st, ast.Expr) and isinstance(st.value, ast.Call) and isinstance(st.value.func, ast.Attribute) and st.value.func.attr in ("update", "setdefault") \
+                            and isinstance(st.value.func.value, ast.Name) and st.value.func.value.id == D:
+                        stores.append(st)
+                stores.sort(key=lambda x: x.lineno)
+                if fresh and stores:
+                    stores = stores[1:]  # the first layer into an empty mapping
+                out += [(f, D, st) for st in stores]
+    return out, n_maps
+
+
+def rule_httpx_merge_semantics(repo: Repo, rep, plain_stores, n_maps) -> None:
+    """R17.10 header fields are merged case-insensitively (a plain dict store of `authorization` next to `Authorization` sends both); R17.11 where the
+    transport creates `params` for a request because a plugin added a query key, the merge takes the query of the request URL along (httpx replaces
+    the URL's own query by a non-empty `params`); R17.12 where plugin cookies are forwarded, a Cookie header already among the prepared headers is
+    taken into account (httpx drops `cookies=` when the request has a Cookie header).  The two httpx behaviours are part of the trusted base."""
+    rep.require(n_maps >= 3, f"R17.10: only {n_maps} header mapping(s) found in the transport and the bundled plugins (floor 3)")
+    if plain_stores:
+        for f, D, st in plain_stores:
+            rep.violation("R17.10", f"{f.module.relpath}:{f.qualname} header store `{norm(st)[:50]}`", f"{f.fq}|case-sensitive-header-store|{norm(st)[:40]}",
+                          f"`{D}` may already hold the same field in another spelling (`authorization` / `Authorization`, `x-trace` / `X-Trace`): a plain dict store keeps both, httpx sends both, "
+                          "and the value that was to be overridden still leaves the transport", f.loc(st))
+    else:
+        rep.ok("R17.10", "header stores of the transport and the bundled plugins", f"{n_maps} header mappings: every store after the first layer goes through the case-insensitive helper", "src/pyopenapi_gen/core/http_transport.py:1")
+    tmod = repo.module(TRANSPORT)
+    tcls = tmod.classes.get("HttpxTransport")
+    fns = [m for m in (tcls.methods.values() if tcls else []) if any(isinstance(c.func, ast.Attribute) and c.func.attr == "authenticate_request" for c in calls_in(m.node))]
+    if not fns:
+        raise AnalysisError("R17.11: HttpxTransport never calls authenticate_request (anchor)")
+    f = fns[0]
+    forwards_params = any(const_str(x) == "params" for x in ast.walk(f.node) if isinstance(x, ast.Constant))
+    forwards_cookies = any(const_str(x) == "cookies" for x in ast.walk(f.node) if isinstance(x, ast.Constant))
+    sub11 = f"{tmod.relpath}:{f.qualname} plugin-added query parameters vs. the query of the request URL"
+    if not forwards_params:
+        rep.ok("R17.11", sub11, "plugin params are not forwarded here", f.loc())
+    else:
+        url_seen = any(isinstance(c, ast.Call) and (dotted(c.func) or "").split(".")[-1] in ("URL", "urlsplit", "urlparse", "parse_qsl", "parse_qs") for c in ast.walk(f.node)) or any(
+            isinstance(x, ast.Attribute) and x.attr in ("params", "query") and isinstance(x.value, ast.Call) for x in ast.walk(f.node))
+        if url_seen:
+            rep.ok("R17.11", sub11, "the query of the request URL is the base the caller's and the plugin's parameters are merged onto", f.loc())
+        else:
+            rep.violation("R17.11", sub11, f"{f.fq}|url-query-replaced",
+                          "when the caller passed no `params`, the plugin's query key becomes the whole `params` argument - and httpx replaces the query of the request URL by a non-empty `params`: "
+                          "`/items?cursor=abc` goes out as `/items?api_key=K` (the caller's query parameters do not pass through)", f.loc())
+    sub12 = f"{tmod.relpath}:{f.qualname} plugin-added cookies vs. a Cookie header"
+    if not forwards_cookies:
+        rep.ok("R17.12", sub12, "plugin cookies are not forwarded here", f.loc())
+    else:
+        looks = any(isinstance(c, ast.Compare) and any(const_str(x) == "cookie" for x in ast.walk(c)) for c in ast.walk(f.node))
+        if looks:
+            rep.ok("R17.12", sub12, "a Cookie field among the prepared headers (any spelling) is extended with the plugin's cookies", f.loc())
+        else:
+            rep.violation("R17.12", sub12, f"{f.fq}|cookie-key-dropped",
+                          "the plugin's cookies are forwarded as `cookies=` whatever the headers contain - httpx ignores `cookies=` when the request already has a Cookie header (a default or "
+                          "per-request `Cookie`): the API key configured for the cookie location never leaves the transport", f.loc())
+
+
 def layering_rule(repo: Repo, rep, rule: str = "R17.2") -> None:
     """Header layering of HttpxTransport._prepare_headers (fresh dict <- defaults <- per-request <- auth)."""
+    _desugar_header_writes(repo)
     tmod = repo.module(TRANSPORT)
     tcls = tmod.classes.get("HttpxTransport")
     if tcls is None:
@@ -198,6 +393,8 @@ def _layering_body(tmod, prep: Function, rep, rule: str) -> None:
 
 
 def run(repo: Repo, rep: Report, tier: str) -> None:
+    _desugar_header_writes(repo, rep)
+    rule_httpx_merge_semantics(repo, rep, *getattr(repo, "_c17_plain_stores", ([], 0)))
     tmod = repo.module(TRANSPORT)
     tcls = tmod.classes.get("HttpxTransport")
     if tcls is None:
